@@ -79,14 +79,14 @@ def replay(b: dict, rep: int) -> tuple[list, int]:
                 tok.value = v
             elif st['op'] == 'indent':
                 tok.indent = ind
-            else:
+            else:                      # 'raw' (canonical lexeme of a value) and 'rawlex' (any lexeme of the terminal)
                 tok.raw_text = exp_raw
         except Exception as e:  # noqa: BLE001
             out.append((fp, f'{st["op"]} with value {v!r}: {type(e).__name__}: {e}'))
             break
         if tok.raw_text != exp_raw:
             drift += 1          # another (possibly equally good) spelling: judged by the properties below
-        if st['op'] != 'raw' and tok.value != v:
+        if st['op'] not in ('raw',) and tok.value != v:
             out.append((fp, f'after {st["op"]}: value reads {tok.value!r}, assigned {v!r}'))
         raw = tok.raw_text
         val = tok.value
@@ -235,11 +235,14 @@ def main(prop: str, tier: str) -> int:
     alpha_full = '{"p","s",";","q","b","n","L","CL","CCL","x"}'
     if tier == 'quick':
         runs = [dict(Alphabet=alpha_full, MaxLen='3', Kinds='{"string","block","inline"}', Indents='{<<>>, <<"s","s">>}', Depth='0'),
-                dict(Alphabet='{"p","s",";","q","b","L","CL"}', MaxLen='1', Kinds='{"string","block","inline"}', Indents='{<<>>, <<"s","s">>}', Depth='2')]
+                dict(Alphabet='{"p","s",";","q","b","L","CL"}', MaxLen='1', Kinds='{"string","block","inline"}', Indents='{<<>>, <<"s","s">>}', Depth='2'),
+                # every lexeme of the string terminal over quotes, backslashes, line ends (bodies <= 3 classes)
+                dict(Alphabet='{"p","q","b","L","CL"}', MaxLen='3', Kinds='{"string"}', Indents='{<<>>}', Depth='1')]
     else:
         runs = [dict(Alphabet=alpha_full, MaxLen='4', Kinds='{"string","block","inline"}', Indents='{<<>>, <<"s","s">>}', Depth='0'),
                 dict(Alphabet='{"p","s",";","q","b","n","L","CL"}', MaxLen='1', Kinds='{"string","block","inline"}', Indents='{<<>>, <<"s","s">>}', Depth='3'),
-                dict(Alphabet='{"p","s",";","L"}', MaxLen='2', Kinds='{"block","inline"}', Indents='{<<>>, <<"s","s">>}', Depth='2')]
+                dict(Alphabet='{"p","s",";","L"}', MaxLen='2', Kinds='{"block","inline"}', Indents='{<<>>, <<"s","s">>}', Depth='2'),
+                dict(Alphabet='{"p","q","b","n","L","CL","CCL"}', MaxLen='3', Kinds='{"string"}', Indents='{<<>>}', Depth='1')]
     states = transitions = nb = drift = 0
     samples = []
     with mp.Pool(16) as pool:
